@@ -1518,6 +1518,15 @@ class Mailbox:
         #       sequences back in after the pack.
         #
         async with self.mh_sequences_lock:
+            # Only pack a folder whose messages we all know. A message that
+            # was delivered in the same second as our last look at the folder
+            # is not in `msg_keys` (and has no UID) yet: the resync has to
+            # take it in first, or our keys and UIDs no longer pair up and the
+            # sequences we write below lose what the delivery put there.
+            #
+            if [int(x) for x in self.mailbox.keys()] != self.msg_keys:
+                self.optional_resync = False
+                return False
             self.set_sequences_in_folder(self.sequences)
             self.mailbox.pack()
             self.msg_keys = [int(x) for x in self.mailbox.iterkeys()]
